@@ -207,7 +207,9 @@ def ob_scan(ex, verify, small=False):
             if not (isinstance(rv, VEnum) and rv.concrete() == 0):
                 continue  # an I/O error path (none without faults)
             stats = rv.payloads[0][0]
-            orphaned, invalid, missing, corrupted, staging = [stats.fields[i] for i in range(5)]
+            from structs import fget as _fg
+            orphaned, invalid, missing, corrupted, staging = [_fg(ex, stats, "OrphanStats", n_) for n_ in
+                                                              ("orphaned_blobs", "invalid_files", "missing_blobs", "corrupted_blobs", "staging_files")]
             seen = {n: z3.And(tree.reachable(n), tree.leaves[n]["parses"]) for n in tree.leaves}
             indexed = lambda h: z3.Or([z3.And(w.pk[i], w.hk[i] == h) for i in range(w.U)])
             posts = {}
@@ -244,7 +246,8 @@ def ob_scan(ex, verify, small=False):
                 want = z3.And(sg["exists"], sg["isfile"])
                 got = any(path_desc(f, e) == ("stg", n) for e in staging.elems)
                 posts[f"staging {n}: listed iff it is a leftover regular file"] = want if got else z3.Not(want)
-            posts["total_blobs = number of blob files seen"] = stats.fields[5].t == z3.Sum([z3.If(c, 1, 0) for c in seen.values()])
+            from structs import fget
+            posts["total_blobs = number of blob files seen"] = fget(ex, stats, "OrphanStats", "total_blobs").t == z3.Sum([z3.If(c, 1, 0) for c in seen.values()])
             for lab, post in posts.items():
                 nq += 1
                 r, m = ex.model_of(f.pc, z3.Not(post))
